@@ -91,7 +91,7 @@ struct Run {
     {
         M base;
         switch (raw % 4) {
-        case 0: base = mx->substr((raw / 32) % (mx->size() + 1)); break;
+        case 0: base = mx->substr(spread(raw / 4) % (mx->size() + 1)); break;
         case 1: base = *my; break;
         default: break;
         }
@@ -102,7 +102,7 @@ struct Run {
     auto needle(std::uint32_t raw) -> M
     {
         std::size_t const lens[8] = {0, 1, 1, 2, 2, 3, mx->size(), mx->size() + 1};
-        auto s = srcn(raw, lens[(raw / 4) % 8]);
+        auto s = srcn(raw, lens[spread(raw) % 8]);
         nt_empty |= s.empty();
         return s;
     }
@@ -113,11 +113,11 @@ struct Run {
         case 0: return *my;
         case 1: return *mx;
         case 2: {
-            M s = mx->substr(0, (raw / 8) % (mx->size() + 1));
+            M s = mx->substr(0, spread(raw) % (mx->size() + 1));
             if (s.size() < N) { s.push_back(ch); }
             return s;
         }
-        case 3: return mx->substr(0, (raw / 8) % (mx->size() + 1));
+        case 3: return mx->substr(0, spread(raw) % (mx->size() + 1));
         default: return srcn(raw / 8, fitlen(raw / 64, N));
         }
     }
